@@ -1432,7 +1432,7 @@ impl Bitboard {
         let target_square = to_square.fen;
         let promotion_piece = promote_to.map(|p| p.to_color(Color::WHITE));
         let promotion_piece = promotion_piece.map_or_else(String::new, |p| format!("={}", p.fen));
-        let check_str = if is_mate { "#" } else if is_check { "+" } else { "" };
+        let check_str = if is_mate && is_check { "#" } else if is_check { "+" } else { "" };
 
         if matches!(from_piece, Piece::KING) {
             let castle_move = match (from_square.file, to_square.file) {
